@@ -46,7 +46,7 @@ class Gen:
     def value(self, ind, depth, kind=None):
         """Return the text of a value starting at column `ind` (first line not indented)."""
         kinds = ["scalar", "ilist", "mlist", "mset", "call", "with", "istr", "if", "iset", "eset", "elist", "recset", "assert",
-                 "letv", "paren", "clist", "cset", "mlist_nested"]
+                 "letv", "paren", "clist", "cset", "mlist_nested", "ifc", "ifc"]
         if depth >= self.max_depth:
             kinds = ["scalar", "ilist", "with", "iset", "eset", "elist"]
         k = kind or self.r.choice(kinds)
@@ -88,6 +88,20 @@ class Gen:
             return "''\n" + "\n".join(sp(ind + 2) + ln for ln in lines) + "\n" + sp(ind) + "''"
         if k == "if":
             return "if cond then a else b"
+        if k == "ifc":
+            # a conditional on its own lines whose branches are documented: comments in one branch, in both, and in an else-if chain
+            i2 = ind + 2
+            shape = self.r.choice(["both", "both", "then", "else", "chain"])
+            out = "\n" + sp(i2) + "if cond then\n"
+            if shape in ("both", "then", "chain"):
+                out += sp(i2 + 2) + "# why the first\n"
+            out += sp(i2 + 2) + "first\n"
+            if shape == "chain":
+                out += sp(i2) + "else if other then\n" + sp(i2 + 2) + "# why the second\n" + sp(i2 + 2) + "second\n"
+            out += sp(i2) + "else\n"
+            if shape in ("both", "else", "chain"):
+                out += sp(i2 + 2) + "# why the last\n"
+            return out + sp(i2 + 2) + "last"
         if k == "assert":
             # not absorbable: goes on its own lines, one level deeper (see binding())
             return "\n" + sp(ind + 2) + "assert cond;\n" + sp(ind + 2) + "value"
